@@ -67,3 +67,9 @@ CASES += [
       "    R = r1 - r2\n    RR = np.sqrt(np.dot(R,R))\n    \n    prf = 1.0/(4.0*const.pi*eps0_int)\n    \n    cc = (np.dot(d1,d2)/(RR**3)\n        - 3.0*np.dot(d1,R)*np.dot(d2,R)/(RR**5))",
       "    R = r1 - r2\n    RR = np.sqrt(np.dot(R,R))\n    nn = R/RR\n    \n    prf = 1.0/(4.0*const.pi*eps0_int)\n    \n    cc = (np.dot(d1,d2)\n        - 3.0*np.dot(d1,nn)*np.dot(d2,nn))/(RR**3)"),
 ]
+
+CASES += [
+    m("dipole operator built on the aggregate's working array", "C03-H", A,
+      "        trdata[:,:,:] = DD[:,:,:]\n        self.TrDMOp = TransitionDipoleMoment(data=trdata)",
+      "        self.TrDMOp = TransitionDipoleMoment(data=DD)"),
+]
